@@ -74,6 +74,7 @@ type cluster struct {
 	watchGroup *threading.RoutineGroup
 	done       chan lang.PlaceholderType
 	lock       sync.Mutex
+	reloadLock sync.Mutex
 }
 
 func newCluster(endpoints []string) *cluster {
@@ -122,9 +123,18 @@ func (c *cluster) watchConnState(cli EtcdClient) {
 }
 
 func (c *cluster) reload(cli EtcdClient) {
+	// 重载串行执行；等待旧的监视协程时不持有集群锁，
+	// 因为它们处理已收到的事件时需要该锁，否则会死锁。
+	c.reloadLock.Lock()
+	defer c.reloadLock.Unlock()
+
 	c.lock.Lock()
 	close(c.done)
-	c.watchGroup.Wait()
+	watchGroup := c.watchGroup
+	c.lock.Unlock()
+	watchGroup.Wait()
+
+	c.lock.Lock()
 	c.done = make(chan lang.PlaceholderType)
 	c.watchGroup = threading.NewRoutineGroup()
 	var keys []string
